@@ -41,6 +41,14 @@ func ruleResetBefore(c *Ctx, p *core.Program, rule string) {
 	c.R.Rule(rule, "in Results.DecodeResult and Results.decodeAuto, Reset() of the target column dominates DecodeState/DecodeColumn, and lies on every path from the accepted type check to the end of the iteration - also for zero-row blocks, whose targets must end up empty")
 	cfg := p.Cfg.Name
 	for _, fn := range resultDecoders(c, p) {
+		// the per-column part may live in a method called for each column
+		if len(core.FindCalls(fn, isColMethod("DecodeColumn"))) == 0 {
+			for _, call := range core.Calls(fn) {
+				if sf := core.StaticFn(call); sf != nil && sf.Blocks != nil && pkgOf(sf) != nil && pkgOf(sf).Path() == core.PkgProto && len(core.FindCalls(sf, isColMethod("DecodeColumn"))) > 0 {
+					fn = sf
+				}
+			}
+		}
 		key := core.FuncName(fn)
 		resets := core.FindCalls(fn, isColMethod("Reset"))
 		if len(resets) == 0 {
@@ -228,6 +236,8 @@ func runC16(c *Ctx) {
 		ruleResetReceiver(c, p, "C16.reset-recv")
 		ruleWriterInvariant(c, p, "C16.writer")
 		ruleChainScratch(c, p, "C16.chain-scratch")
+		ruleForwardUnconditional(c, p, "C16.forward-always")
+		ruleFieldBeforeUse(c, p, "C16.field-before-use")
 	}
 	p := c.Prog(core.CfgDefault)
 	if p == nil {
@@ -626,6 +636,45 @@ func runC18(c *Ctx) {
 	if !c.must(p, "Results.DecodeResult", dr != nil) {
 		return
 	}
+	// the per-column part may live in a method DecodeResult calls for each column: the data-flow clauses
+	// are then decided there (its wire-derived parameters resolved at the call site), the count test in
+	// DecodeResult itself
+	outer := dr
+	var hostCall ssa.CallInstruction
+	if len(core.FindCalls(dr, isColMethod("DecodeColumn"))) == 0 {
+		for _, call := range core.Calls(dr) {
+			if sf := core.StaticFn(call); sf != nil && sf.Blocks != nil && pkgOf(sf) != nil && pkgOf(sf).Path() == core.PkgProto && len(core.FindCalls(sf, isColMethod("DecodeColumn"))) > 0 {
+				dr, hostCall = sf, call
+			}
+		}
+	}
+	isStrRead := func(x ssa.Value) bool {
+		_, ok := core.CallTo(x, func(f *types.Func) bool { return core.IsMethod(f, core.PkgProto, "Reader", "Str") })
+		return ok
+	}
+	wireParam := func(v ssa.Value) bool {
+		if hostCall == nil {
+			return false
+		}
+		return core.DependsOn(v, func(x ssa.Value) bool {
+			pr, ok := x.(*ssa.Parameter)
+			if !ok {
+				return false
+			}
+			for i, q := range dr.Params {
+				if q == pr && i < len(hostCall.Common().Args) {
+					return core.DependsOn(hostCall.Common().Args[i], isStrRead, false)
+				}
+			}
+			return false
+		}, false)
+	}
+	siteOf := func(s ssa.Instruction) ssa.Instruction {
+		if hostCall != nil {
+			return hostCall.(ssa.Instruction)
+		}
+		return s
+	}
 	rule := "C18.order"
 	c.R.Rule(rule, "in Results.DecodeResult the calls that put data into a target (DecodeState, DecodeColumn on s[i].Data) are reachable only through the passing edges of the column-count test, of the name comparison and of ColumnType.Conflicts, after Infer (when the target is Inferable) and after Reset; Conflicts compares the block's type with the target's type")
 	var sinks []ssa.Instruction
@@ -657,17 +706,14 @@ func runC18(c *Ctx) {
 		}
 		l, r := core.FieldOrigin(bo.X, 0), core.FieldOrigin(bo.Y, 0)
 		fromWire := func(v ssa.Value) bool {
-			return core.DependsOn(v, func(x ssa.Value) bool {
-				_, ok := core.CallTo(x, func(f *types.Func) bool { return core.IsMethod(f, core.PkgProto, "Reader", "Str") })
-				return ok
-			}, false)
+			return core.DependsOn(v, isStrRead, false) || wireParam(v)
 		}
 		if (l == "ResultColumn.Name" && fromWire(bo.Y)) || (r == "ResultColumn.Name" && fromWire(bo.X)) {
 			return bo.Op == token.NEQ, true // predicate: names differ
 		}
 		return false, false
 	})
-	countOK := core.CondEdges(dr, false, func(cond ssa.Value) (bool, bool) {
+	countOK := core.CondEdges(outer, false, func(cond ssa.Value) (bool, bool) {
 		// columnsMismatch && !allowMismatch : the first operand decides; accept any condition that depends on both len(s) and Block.Columns
 		depLen := core.DependsOn(cond, func(x ssa.Value) bool {
 			cl, ok := x.(*ssa.Call)
@@ -687,7 +733,7 @@ func runC18(c *Ctx) {
 	// the same comparison inside a boolean helper of package proto (`if !s.fits(b)`): both edges of the
 	// test are candidates, the clause below keeps the one whose other side can fail (what the helper
 	// computes is decided case by case in C18.count)
-	for _, b := range dr.Blocks {
+	for _, b := range outer.Blocks {
 		ifi, ok := b.Instrs[len(b.Instrs)-1].(*ssa.If)
 		if !ok {
 			continue
@@ -739,14 +785,14 @@ func runC18(c *Ctx) {
 		cntOK := false
 		for _, e := range countOK {
 			ifi := e.B.Instrs[len(e.B.Instrs)-1]
-			if !core.Dominates(ifi, s) {
+			if !core.Dominates(ifi, siteOf(s)) {
 				continue
 			}
 			start := core.Point{B: e.B.Succs[1-e.Succ], I: -1}
 			fails := core.ReachAvoiding(start, func(in ssa.Instruction) bool {
 				r, ok := in.(*ssa.Return)
-				return ok && !defaultSuccess(dr, r)
-			}, func(in ssa.Instruction) bool { return in == s }, nil)
+				return ok && !defaultSuccess(outer, r)
+			}, func(in ssa.Instruction) bool { return in == siteOf(s) }, nil)
 			if len(fails) > 0 {
 				cntOK = true
 			}
@@ -795,14 +841,39 @@ func runC18(c *Ctx) {
 			c.R.Ok(rule, key, cfg, p.Pos(s.Pos()), "guarded by count, name, Infer, Conflicts")
 		}
 	}
+	// every column that passed the name check is type-checked and reset, whether or not the block has rows:
+	// from the passing edge of the name comparison neither the next iteration nor a success exit is reachable
+	// without the Conflicts test (a header-only block answers a SELECT that returns no rows: skipping the check
+	// there accepts String into a UInt64 target with a nil error) and without Reset
+	if len(nameOK) > 0 {
+		isConf := func(in ssa.Instruction) bool {
+			return core.IsCallOf(in, func(f *types.Func) bool { return core.IsMethod(f, core.PkgProto, "ColumnType", "Conflicts") })
+		}
+		isReset := func(in ssa.Instruction) bool { return core.IsCallOf(in, isColMethod("Reset")) }
+		for _, e := range nameOK {
+			start := core.Point{B: e.B.Succs[e.Succ], I: -1}
+			hdr := core.LoopHeader(e.B.Instrs[len(e.B.Instrs)-1])
+			next := func(in ssa.Instruction) bool {
+				if ret, ok := in.(*ssa.Return); ok && defaultSuccess(dr, ret) {
+					return true
+				}
+				return hdr != nil && in.Block() == hdr && in == hdr.Instrs[0]
+			}
+			for what, pass := range map[string]func(ssa.Instruction) bool{"typecheck": isConf, "reset": isReset} {
+				key := core.FuncName(dr) + "/always-" + what
+				if w := core.ReachAvoiding(start, next, pass, nil); len(w) > 0 {
+					c.R.Bad(rule, key, cfg, p.Pos(w[0].At.Pos()), "a column can be accepted (the loop moves on, or DecodeResult succeeds) without the "+map[string]string{"typecheck": "type-compatibility test", "reset": "Reset of its target"}[what]+": for a block without rows the mismatch goes unreported / the target keeps the previous block's rows", p.TrailString(w[0])...)
+				} else {
+					c.R.Ok(rule, key, cfg, p.Pos(dr.Pos()), "on every path of an accepted column")
+				}
+			}
+		}
+	}
 	// Conflicts compares got (wire) with has (target.Type())
 	for _, cf := range core.FindCalls(dr, func(f *types.Func) bool { return core.IsMethod(f, core.PkgProto, "ColumnType", "Conflicts") }) {
 		args := cf.Common().Args
 		wire := func(v ssa.Value) bool {
-			return core.DependsOn(v, func(x ssa.Value) bool {
-				_, ok := core.CallTo(x, func(f *types.Func) bool { return core.IsMethod(f, core.PkgProto, "Reader", "Str") })
-				return ok
-			}, false)
+			return core.DependsOn(v, isStrRead, false) || wireParam(v)
 		}
 		typ := func(v ssa.Value) bool {
 			return core.DependsOn(v, func(x ssa.Value) bool {
@@ -882,6 +953,7 @@ func runC18(c *Ctx) {
 	ruleConflictsSymm(c, p, "C18.symm")
 	ruleLenientWidth(c, p, "C18.lenient")
 	ruleVersionPassThrough(c, p, "C18.version-through")
+	ruleStringIdioms(c, p, "C18.idioms")
 	ruleWrapperElem(c, p, "C18.wrapper-elem")
 	ruleEndMarker(c, p, "C18.endmarker")
 	ruleCountCases(c, p, "C18.count")
@@ -1620,14 +1692,60 @@ func ruleMapInfer(c *Ctx, p *core.Program, rule string) {
 		return
 	}
 	var cut *ssa.Call
+	flat := false
 	for _, call := range core.Calls(inf) {
 		if f := core.CalleeFunc(call); f != nil && f.Pkg() != nil && f.Pkg().Path() == "strings" && (f.Name() == "Cut" || f.Name() == "SplitN" || f.Name() == "Split") {
 			cut, _ = call.(*ssa.Call)
+			flat = true
+		}
+	}
+	// or a splitter of package proto that returns the two parts
+	if cut == nil {
+		for _, call := range core.Calls(inf) {
+			g := core.StaticFn(call)
+			if g == nil || g.Blocks == nil || pkgOf(g) == nil || pkgOf(g).Path() != core.PkgProto || g.Signature.Results().Len() < 2 {
+				continue
+			}
+			nStr := 0
+			for i := 0; i < g.Signature.Results().Len(); i++ {
+				if b, ok := g.Signature.Results().At(i).Type().Underlying().(*types.Basic); ok && b.Info()&types.IsString != 0 {
+					nStr++
+				}
+			}
+			if nStr >= 2 {
+				cut, _ = call.(*ssa.Call)
+			}
 		}
 	}
 	if cut == nil {
-		c.R.Unk(rule, "ColMap.Infer", cfg, p.Pos(inf.Pos()), "the split of the Map parameters was not found (strings.Cut / Split)")
+		c.R.Unk(rule, "ColMap.Infer", cfg, p.Pos(inf.Pos()), "the split of the Map parameters was not found (strings.Cut / Split or a proto splitter)")
 		return
+	}
+	// the split respects nesting: K and V are types themselves and may carry parameter lists with commas
+	// of their own (Enum8('a' = 1, 'b' = 2), Decimal(9, 2), DateTime64(3, 'UTC'))
+	if flat {
+		c.R.Bad(rule, "ColMap.Infer/split", cfg, p.Pos(cut.Pos()), "the parameter list of Map(K, V) is split at the first comma (and a second comma is an error): a key or value type with parameters of its own - Enum8('a' = 1, 'b' = 2), Decimal(9, 2), DateTime64(3, 'UTC') - cannot be inferred, so maps of enums and of zoned timestamps never adopt the server's type")
+	} else {
+		g := core.StaticFn(cut)
+		seen := map[int64]bool{}
+		loops := false
+		for _, b := range g.Blocks {
+			for _, in := range b.Instrs {
+				if bo, ok := in.(*ssa.BinOp); ok && (bo.Op == token.EQL || bo.Op == token.NEQ) {
+					if k, okc := core.ConstInt(bo.Y); okc {
+						seen[k] = true
+					}
+				}
+				if core.InLoop(in) {
+					loops = true
+				}
+			}
+		}
+		if loops && seen['('] && seen[')'] && seen[','] {
+			c.R.Ok(rule, "ColMap.Infer/split", cfg, p.Pos(cut.Pos()), "split by "+g.Name()+", which scans for the comma outside parentheses")
+		} else {
+			c.R.Bad(rule, "ColMap.Infer/split", cfg, p.Pos(cut.Pos()), "the splitter of the Map parameter list does not track parentheses: nested parameter lists are cut at their own commas")
+		}
 	}
 	part := func(v ssa.Value) int {
 		idx := -1
